@@ -744,3 +744,54 @@ pub fn parse_tls_server_hello_extensions(i: &[u8]) -> IResult<&[u8], Vec<TlsExte
 pub fn parse_tls_extensions(i: &[u8]) -> IResult<&[u8], Vec<TlsExtension>> {
     many0(complete(parse_tls_extension))(i)
 }
+
+// crate-private parsers exposed to the verification harnesses (compiled only by `cargo kani`)
+#[cfg(kani)]
+pub(crate) mod verif_access {
+    use super::*;
+    pub(crate) fn status_request_content(i: &[u8], ext_len: u16) -> IResult<&[u8], TlsExtension> {
+        parse_tls_extension_status_request_content(i, ext_len)
+    }
+    pub(crate) fn padding_content(i: &[u8], ext_len: u16) -> IResult<&[u8], TlsExtension> {
+        parse_tls_extension_padding_content(i, ext_len)
+    }
+    pub(crate) fn encrypt_then_mac_content(i: &[u8], ext_len: u16) -> IResult<&[u8], TlsExtension> {
+        parse_tls_extension_encrypt_then_mac_content(i, ext_len)
+    }
+    pub(crate) fn extended_master_secret_content(i: &[u8], ext_len: u16) -> IResult<&[u8], TlsExtension> {
+        parse_tls_extension_extended_master_secret_content(i, ext_len)
+    }
+    pub(crate) fn session_ticket_content(i: &[u8], ext_len: u16) -> IResult<&[u8], TlsExtension> {
+        parse_tls_extension_session_ticket_content(i, ext_len)
+    }
+    pub(crate) fn key_share_old_content(i: &[u8], ext_len: u16) -> IResult<&[u8], TlsExtension> {
+        parse_tls_extension_key_share_old_content(i, ext_len)
+    }
+    pub(crate) fn key_share_content(i: &[u8], ext_len: u16) -> IResult<&[u8], TlsExtension> {
+        parse_tls_extension_key_share_content(i, ext_len)
+    }
+    pub(crate) fn pre_shared_key_content(i: &[u8], ext_len: u16) -> IResult<&[u8], TlsExtension> {
+        parse_tls_extension_pre_shared_key_content(i, ext_len)
+    }
+    pub(crate) fn early_data_content(i: &[u8], ext_len: u16) -> IResult<&[u8], TlsExtension> {
+        parse_tls_extension_early_data_content(i, ext_len)
+    }
+    pub(crate) fn supported_versions_content(i: &[u8], ext_len: u16) -> IResult<&[u8], TlsExtension> {
+        parse_tls_extension_supported_versions_content(i, ext_len)
+    }
+    pub(crate) fn cookie_content(i: &[u8], ext_len: u16) -> IResult<&[u8], TlsExtension> {
+        parse_tls_extension_cookie_content(i, ext_len)
+    }
+    pub(crate) fn npn_content(i: &[u8], ext_len: u16) -> IResult<&[u8], TlsExtension> {
+        parse_tls_extension_npn_content(i, ext_len)
+    }
+    pub(crate) fn post_handshake_auth_content(i: &[u8], ext_len: u16) -> IResult<&[u8], TlsExtension> {
+        parse_tls_extension_post_handshake_auth_content(i, ext_len)
+    }
+    pub(crate) fn record_size_limit(i: &[u8]) -> IResult<&[u8], TlsExtension> {
+        parse_tls_extension_record_size_limit(i)
+    }
+    pub(crate) fn oid_filters(i: &[u8]) -> IResult<&[u8], TlsExtension> {
+        parse_tls_extension_oid_filters(i)
+    }
+}
